@@ -119,6 +119,9 @@ EXTRA = {
 # rounds 5-7
 EXTRA2 = {'C01': 'Back-pressure events (pause/resume) while the stream arrives, two interleaved connections plus one that ended mid-item, a slow client under a configured idle timeout (virtual clock), messages of 1200 datapoints.', 'C02': 'Metric names include the empty name and tagged / tag-like names; sub-second timestamps; prefilled single-preemption enumeration at line and at bytecode granularity.', 'C03': "Injected faults repeat the same text (a backend that stays down); carbon's default logging and tagging switched on; a tagged series and the empty metric name.", 'C04': "Blocking primitives the code under test may introduce (Event/Lock/RLock) are scheduler-aware; carbon's default LOG_UPDATES/LOG_CREATES/ENABLE_TAGS.", 'C06': 'Ring-edge configurations: nodes with a replica exactly on position 0xffff / 0, fnv1a_ch instance names shared by servers.', 'C07': 'Transports that push back from inside write(); USE_RATIO_RESET with instrumentation periods (quality resets told apart from stop closes). A further genuine defect (F17) found by the thorough tier and fixed.', 'C08': 'The virtual clock stops at every timer (a single Clock.advance would collapse the ticks); trickle-around-an-edge histories; several aggregates of the same inputs with the name cache on.', 'C09': 'Push-back transports in the relay histories. A fourth genuine defect (F16: space check vs cacheFull handlers on two threads) found by the thorough tier and fixed.', 'C10': 'Sub-second timestamps; prefilled enumeration at bytecode granularity inside cache.py.', 'C11': 'Items repeated later on the connection, a neighbouring connection, connection logging switched off/on, items exactly at / one byte over the maximum length and a frame between the default and a raised limit.', 'C12': "Rule texts whose ends look like a redundant '.*'; a list file removed and redeployed with the same rules; three generations.", 'C13': 'The canary set is also run in a child interpreter started with -O (assert statements removed).', 'C14': 'Nodes of 250-300 characters that differ only in the last character.', 'C16': 'Tagged names in the relay-rules cases; name cache on/off; several aggregates of the same inputs; a generation that renames an aggregate.', 'C17': "Prefilled single-preemption enumeration (one preemption of the writer's first drain reaches the choose/remove window).", 'C19': 'Generations deployed with preserved / older / equal mtimes; a reload that raises or exits is a violation.'}
 
+# rounds 8-10
+EXTRA3 = {'C02': 'Cold start: the write processor and the writer go through the real MetricCache() factory for the first time from two threads (every single preemption, conservation of datapoints).', 'C03': 'Fault kinds with errno EINTR / EAGAIN / ENOSPC.', 'C04': 'WriterService.startService() runs against the reactor double; the stop fires the triggers the service registered.', 'C05': 'Traffic before membership changes, instances returning on another port, destinations replaced by others, look-ups consumed alternately, run-time hash-type strings.', 'C06': 'Look-ups through the router as well as the ring; membership changes without a look-up in between; DESTINATIONS order through carbon.conf.', 'C07': 'RELAY_METHOD = rules as a dimension.', 'C09': 'USE_RATIO_RESET in the pressure and fail-over histories.', 'C10': 'Update of a cached timestamp through the write processor while the cache is at its limit (four spellings of a tagged series); names with a percent sign.', 'C11': 'Deeply nested pickle objects (F18, a genuine defect, fixed); 1100-2100 malformed items on one long-lived listener; over-long items that do not close the connection.', 'C12': 'Symlinked list files; half-anchored alternations.', 'C13': 'An unimported canary package with a sub-module; connections whose set-up raised half-way.', 'C14': 'A second instance with another data directory; every path exists() touches; a failed migration rename.', 'C15': "Back-pressure events on the receiving side while the client's stream arrives.", 'C16': 'Rules file removed; edits within the same second.', 'C17': 'Cache queries among the operations; passes that take minutes of virtual time.', 'C18': 'Trailing-separator names; one long-lived pair of processors fed 1203 rejected names over virtual minutes.', 'C19': 'A metric the writer turns to after both reloads completed must use the new files; failed create, reload, retry.', 'C20': 'One writer-side bucket operation at every line of a limit change; backlog and trickle of new metrics; failing backend calls.'}
+
 PENDING_REASON = 'check not built yet in this session (design in DESIGN.md section 4); will be claimed once its check is quiet on the unchanged tree and catches its mutants'
 
 
@@ -136,7 +139,7 @@ def main():
         'evidence_file': 'evidence/%s.json' % pid,
         'replay_cmd_template': './check %s --replay {path}' % pid,
         'engine': engine,
-        'level_claimed': {'category': cat, 'text': text + (' ' + EXTRA[pid] if pid in EXTRA else '') + (' ' + EXTRA2[pid] if pid in EXTRA2 else ''), 'design_ref': ref},
+        'level_claimed': {'category': cat, 'text': text + (' ' + EXTRA[pid] if pid in EXTRA else '') + (' ' + EXTRA2[pid] if pid in EXTRA2 else '') + (' ' + EXTRA3[pid] if pid in EXTRA3 else ''), 'design_ref': ref},
         'level_note': note,
         'technique': tech,
       })
